@@ -32,7 +32,8 @@ FLOORS = {"quick": {"histories": 6000, "callbacks_matched": 40000, "expiries_on_
                     "refresh_at_d_after": 800, "refresh_d_minus_eps": 800, "refresh_d_plus_eps": 400, "infinite_entries_outlived_clock": 300,
                     "ttl_fffffe_expiries": 100, "driver_direct": 2000, "driver_offers": 2000, "driver_subscribes": 1500,
                     "removed_then_no_expiry": 3000, "rejected_new_entries": 1500,
-                    "wakeups_within_resolution_before_a_deadline": 1500}}
+                    "wakeups_within_resolution_before_a_deadline": 1500,
+                    "find_rounds_started_or_restarted_amid_a_history": 600}}
 
 FOREVER = 0xFFFFFF
 TTLS = (1, 1, 2, 2, 3, 3, 0xFFFFFE, FOREVER)
@@ -259,6 +260,14 @@ class Offers:
     def lost(self):
         self.prot.connection_lost(None)
 
+    def restart(self, k):
+        # the application starts its find rounds late (listener first, start() afterwards - tools/monitor-sd.py), or starts
+        # them anew: what is known about offered services, and when it runs out, is not a matter of the find rounds
+        # (the discovery half only: an announcer's cyclic rounds would tick through the weeks-long horizons of this check)
+        if k:
+            self.prot.discovery.stop()
+        self.prot.discovery.start()
+
 
 class Subscribes:
     """through an announced instance: Subscribe / StopSubscribe / reboot evidence"""
@@ -323,6 +332,9 @@ DRIVERS = {"direct": Direct, "offers": Offers, "subscribes": Subscribes}
 
 
 # ------------------------------------------------------------------------------- execution + oracle
+RESTARTS = [0]
+
+
 def execute(driver, ops, horizon, seed):
     rng = random.Random(seed)
     h = Harness(rng, max_iterations=200000)
@@ -340,6 +352,14 @@ def execute(driver, ops, horizon, seed):
             h.at(t, drv.stop_all, target, rank=rank)
         else:
             h.at(t, drv.lost, rank=rank)
+    n_restarts = 0
+    if driver == "offers" and ops and rng.random() < 0.5:
+        for k in range(rng.choice((1, 1, 2, 3))):
+            t = rng.choice(ops)[0] + rng.choice((0.0, 2.0 ** -7, 0.0625, 0.3))
+            if t < horizon:
+                h.at(t, drv.restart, k, rank=rng.choice((BEFORE, AFTER)))
+                n_restarts += 1
+    RESTARTS[0] += n_restarts
     h.run(horizon)
     problems = h.problems()
     end = h.loop.time()
@@ -378,6 +398,8 @@ def match(expected, got):
 def judge(ctx, driver, ops, expected, horizon, has_inf, seed, replay):
     log, problems, end = execute(driver, ops, horizon, seed)
     ctx.count("histories")
+    ctx.count("find_rounds_started_or_restarted_amid_a_history", RESTARTS[0])
+    RESTARTS[0] = 0
     ctx.count("driver_" + driver)
     per = {}
     for t, slot, kind in log:
